@@ -251,4 +251,16 @@ PROPERTIES = {
             part("C08.sync", shards={"quick": 16, "thorough": 16}, floor=200),
         ],
     },
+    "C09": {
+        "level": "exploration",
+        "level_text": "vote-collector monitor on a real replica that is the next leader: genuine votes in varying orders, before/after the block, mixed with hostile votes; two-sided oracle from the "
+                      "ground-truth sign log; asynchronous variant with goroutine-per-vote verification under the race detector judged at quiescence; Kauri tree collector with recorded contributions",
+        "level_note": "the 'cannot be prevented' clause is asserted for the all-to-one collector only, as the property states; <= f restriction lifted (single-replica property)",
+        "technique": "runtime monitor (two-sided sign-log oracle) on a single real replica under hostile vote streams; race detector on the asynchronous variant",
+        "rule": "C09: vote collection",
+        "parts": [
+            part("C09.clique", shards={"quick": 16, "thorough": 16}, floor=200),
+            part("C09.async", race=True, shards={"quick": 8, "thorough": 16}, floor=30, timeout={"quick": 900, "thorough": 7200}),
+        ],
+    },
 }
